@@ -27,7 +27,7 @@ CLAIMED = {
             "DESIGN.md §4 C03"),
     "C17": ("conc", "exploration",
             "deterministic simulation: simulated caller threads under a seeded baton-passing scheduler over the lock seam (every interleaving of lock acquisitions and the RwLock queueing policy decided by the PRNG), serialisability check against a reference model, minimised replayable schedule; second stage: the shipped sync flavours (guard off, std locks) interpreted by Miri under its seeded preemptive scheduler (-Zmiri-seed, -Zmiri-preemption-rate), which reports data races, undefined behaviour, deadlocks and leaks",
-            "2-4 simulated caller threads run seeded scripts of mutations, queries, iteration and traversals on shared sync nodes; the scheduler decides who runs at every lock acquisition (uniform / PCT / sticky / serial policies, writer preference on or off). Verdicts: deadlock (no task runnable), step-budget overrun, panic or poisoned lock, quiescent mirror/symmetry invariant, and existence of a sequential order of the mutating calls that explains every return value and the final graph. Seeded schedule search, not exhaustive. Second stage (msim): 192 (quick) / 6000 (thorough) executions of small thread scenarios (1-4 nodes, 2-3 threads, 1-4 calls each, three schedules per scenario) under Miri: data race, undefined behaviour, deadlock, panic, quiescent invariant.",
+            "2-4 simulated caller threads run seeded scripts of mutations, queries, iteration and traversals on shared sync nodes; the scheduler decides who runs at every lock acquisition (uniform / PCT / sticky / serial / one-placed-pause policies, writer preference on or off; rare hub scenarios with lists of 65-300 and of 4097-4400 entries). Verdicts: deadlock (no task runnable), step-budget overrun, panic or poisoned lock, quiescent mirror/symmetry invariant, and existence of a sequential order of the mutating calls that explains every return value and the final graph. Seeded schedule search, not exhaustive. Second stage (msim): 192 (quick) / 6000 (thorough) executions of small thread scenarios (1-4 nodes, 2-3 threads, 1-4 calls each, three schedules per scenario) under Miri: data race, undefined behaviour, deadlock, panic, quiescent invariant.",
             "Trusted: scheduler and lock model (cross-checked against the real lock at every grant), reference model. Context switches only at lock acquisitions (all shared mutable state of the sync flavours is under those locks). Nodes kept alive by the harness. msim stage: Miri's scheduler and race detector are trusted; its scenarios are tiny.",
             "DESIGN.md §4 C17"),
     "C20": ("inject", "exploration",
@@ -37,7 +37,7 @@ CLAIMED = {
             "DESIGN.md §4 C20"),
     "C11": ("scc", "exploration",
             "deterministic simulation of the container's iteration order: hash seam (ahash key source owned by the simulator) x seeded insertion orders, several container instances per graph, reference SCC partition",
-            "scc() of digraph and sync_digraph containers is compared, as a set of sets, with the mutual-reachability classes computed by a reachability closure, for several container instances per seeded graph, each with its own simulated hash seed and insertion order (the configuration the property quantifies over).",
+            "scc() of digraph and sync_digraph containers is compared, as a set of sets, with the mutual-reachability classes computed by a reachability closure, for several container instances per seeded graph, each with its own simulated hash seed and insertion order (the configuration the property quantifies over); in one scenario of six the instances hold the same node objects.",
             "Trusted: the reachability-closure reference; the hash seam really determines iteration order (checked by the determinism self-test and the order-differs probe).",
             "DESIGN.md §4 C11"),
     "C12": ("roundtrip", "exploration",
